@@ -50,8 +50,10 @@ def object_history(rng):
     rng.shuffle(props)
     methods = [("Tick", ["X"], [ExprS(Bump(None, "Pn", False, Num(rng.randrange(1, 5)))), ExprS(Method(ThisProp("Pl"), [("后增", [Var("X")])])),
                                 Return(ThisProp("Pn"))], []),
+               ("GetL", [], [Return(ThisProp("Pl"))], []), ("GetD", [], [Return(ThisProp("Pd"))], []),
                ("Put", ["X"], [ExprS(AssignIndex(ThisProp("Pd"), Str(rng.choice(["k", "m"])), Var("X"))), ExprS(AssignThis("Ps", Str("t")))], [])]
-    body = [Class("C", props, methods)]
+    body = [Class("C", props, methods), Decl([(False, ["G"], Arr([Num(1)]))]), Func("GetG", [], [Return(Var("G"))], [])]
+    nyield = [0]
     if rng.random() < 0.4:
         body.append(Ctor("C", ["V"], [ExprS(AssignThis("Ps", Var("V")))], []))
         mk = lambda: New("C", [Str(rng.choice(["u", "v"]))])
@@ -60,9 +62,9 @@ def object_history(rng):
     names = []
 
     def show():
-        return Display(*[Member(Var(o), pn) for o in names for pn in ("Pn", "Pl", "Pd", "Ps")])
+        return Display(Var("G"), *[Member(Var(o), pn) for o in names for pn in ("Pn", "Pl", "Pd", "Ps")])
     for _ in range(rng.randrange(4, 9)):
-        k = rng.randrange(6) if names else 0
+        k = rng.randrange(8) if names else 0
         if k == 0 and len(names) < 4:
             o = "O%d" % len(names)
             body.append(Decl([(False, [o], mk())]))
@@ -75,6 +77,21 @@ def object_history(rng):
                 body.append(ExprS(Method(Var(o), [("Tick", [Num(rng.randrange(10, 99))])])))
             elif k == 3:
                 body.append(ExprS(Method(Var(o), [("Put", [Num(rng.randrange(10, 99))])])))
+            elif k >= 6:
+                # the name bound by 得到 denotes the very value the method output: a change through it is a change of the
+                # property (or module variable) the method handed out
+                nyield[0] += 1
+                r = "R%d" % nyield[0]
+                which = rng.randrange(3)
+                if which == 0:
+                    body.append(ExprS(Method(Var(o), [("GetL", [])], r)))
+                    body.append(ExprS(Method(Var(r), [(rng.choice(["后增", "前增"]), [Num(rng.randrange(10, 99))])])))
+                elif which == 1:
+                    body.append(ExprS(Method(Var(o), [("GetD", [])], r)))
+                    body.append(ExprS(AssignIndex(Var(r), Str(rng.choice(["k", "y"])), Num(rng.randrange(10, 99)))))
+                else:
+                    body.append(ExprS(Call("GetG", [], r)))
+                    body.append(ExprS(Method(Var(r), [rng.choice([("后增", [Num(rng.randrange(10, 99))]), ("左移", [])])])))
             elif k == 4:
                 body.append(ExprS(Method(Member(Var(o), "Pl"), [(rng.choice(["后增", "前增"]), [Num(rng.randrange(10, 99))])])))
             else:
